@@ -27,7 +27,8 @@ CONSTANTS
     Base,            \* rows already on the terminal
     Align,           \* "top" / "bottom"
     M0,              \* "e": bars start with an empty message, "id": with their own digit
-    Tgt,             \* "auto" (spy, or spy_hz when Hz > 0), "hidden", "pipe" (a Term that is not a tty)
+    Tgt,             \* "auto" (spy, or spy_hz when Hz > 0), "hidden", "pipe" (a Term that is not a tty), "pty", or one of the process's own
+                     \* streams over a pipe / a pty: stderr_pipe, stdout_pipe, default_pipe, stderr_pty, stdout_pty, default_pty (Screen!HiddenTargets, PtyTargets)
     Faults,          \* k values for fail_at: the k-th next terminal call fails (once / sticky); {} = no faults
     Pre,             \* bars already added (Multi) when the enumeration starts
     Once,            \* TRUE: finish-type operations only on unfinished bars (keeps focused families small)
@@ -169,6 +170,7 @@ OpsNow ==
                        [] nm = "mp_clear" -> { [op |-> nm, b |-> 0, dt |-> dt] : dt \in DTs }
                        [] nm = "mp_set_move_cursor" -> (* only before anything is drawn: the mode is documented for frames that keep their shape *)
                                                        IF \A b \in S.ids : ~S.bars[b].drawn THEN { [op |-> nm, b |-> 0, dt |-> 0, n |-> 1] } ELSE {}
+                       [] nm = "mp_is_hidden" -> { [op |-> nm, b |-> 0, dt |-> 0] }
                        [] nm = "mp_set_alignment" -> { [op |-> nm, b |-> 0, dt |-> 0, a |-> a] : a \in {"top", "bottom"} \ {S.align} }
                        [] OTHER -> {}) : nm \in MpOps }
        ELSE {})
@@ -189,7 +191,7 @@ PreOps(n) == IF n = 0 THEN <<>> ELSE Append(PreOps(n - 1), NewOp("add", n, CHOOS
 RECURSIVE PreState(_, _, _)
 PreState(S0, ops, i) == IF i > Len(ops) THEN S0 ELSE PreState(Apply(S0, Full(ops[i])).S, ops, i + 1)
 
-Init == /\ S = PreState(SInit(W, H, Multi, Multi /\ Tgt \in {"hidden", "pipe"}, Align), PreOps(Pre), 1) /\ hist = PreOps(Pre) /\ nlog = 0 /\ done = FALSE
+Init == /\ S = PreState(SInit(W, H, Multi, Multi /\ Tgt \in HiddenTargets, Align), PreOps(Pre), 1) /\ hist = PreOps(Pre) /\ nlog = 0 /\ done = FALSE
         /\ I = [I0 EXCEPT !.ord = [j \in 1..Pre |-> [b |-> j, z |-> FALSE]]]
 
 Dead == ~Multi /\ S.ids # {} /\ AliveBars = {}
@@ -240,7 +242,7 @@ IAdvance(i, o, S0, S1) ==
               [] o.op \in {"mp_suspend", "suspend"} -> IPaint([i EXCEPT !.zl = 0, !.ll = 0], S1, FALSE)
               [] o.op = "drop" -> IF ~inord THEN i
                                   ELSE IZombie(IF S0.bars[o.b].fin = "no" THEN IPaint(i, S1, FALSE) ELSE i, S1, o.b)
-              [] o.op \in {"set_style", "restyle", "copy_style", "clone", "drop_one", "mp_set_alignment", "mp_set_move_cursor", "reset_eta", "reset_elapsed", "fail_at", "is_hidden", "downgrade", "upgrade"} -> i
+              [] o.op \in {"set_style", "restyle", "copy_style", "clone", "drop_one", "mp_set_alignment", "mp_set_move_cursor", "reset_eta", "reset_elapsed", "fail_at", "is_hidden", "mp_is_hidden", "downgrade", "upgrade"} -> i
               [] OTHER -> IF inord THEN IPaint(i, S1, FALSE) ELSE i
 
 Step == /\ Len(hist) < D
